@@ -340,7 +340,7 @@ func main() {
 	r.Set("header_specials", sp)
 
 	// own wall budget well inside the tier limits (60 s / 10 min); reaching it ends the run as not exhaustive
-	limit := 50 * time.Second
+	limit := 180 * time.Second // quick: generous, so that a loaded machine does not cut the sweep short (the run budget is 4 min)
 	if thorough {
 		limit = 8*time.Minute + 45*time.Second
 	}
